@@ -18,6 +18,7 @@ import GrcovModel.Props.C15Bytes
 import GrcovModel.Props.C15Entry
 import GrcovModel.Props.C15Mismatch
 import GrcovModel.Props.C15Stamp
+import GrcovModel.Props.C15Run
 namespace Grcov.Props.C15
 open Grcov Grcov.Gcno AList Outcome
 
